@@ -128,23 +128,30 @@ def run(ctx):
                     continue
             else:
                 t = G.rand_bool(rng, w, rng.choice([1, 2]))
+                if rng.random() < 0.4:
+                    # the shapes the simplifiers look for, and their near misses: what is judged is the WRITTEN formula
+                    name_, t2 = G.near_miss(rng) if rng.random() < 0.5 else G.rule_directed(rng)
+                    if E.is_bool(t2) and all(wd <= 12 for wd in E.variables(t2).values()):
+                        t = t2
                 a, _, e = X.build_case(t)
                 if e is not None:
                     continue
             if not isinstance(a, claripy.ast.Bool):
                 continue
             try:
-                pool.append((a, E.from_ast(a)))
+                pool.append((a, E.from_ast(a), t))
             except E.Unsupported:
                 pass
         if not pool:
             continue
         conc._true_cache.clear(); conc._false_cache.clear()
         qs = []
+        written = {}      # what the caller wrote: a True answer is judged against THAT formula (the built AST may already be wrong)
         for _ in range(rng.choice([6, 12, 24, 40])):
-            a, at = rng.choice(pool)
+            a, at, wt = rng.choice(pool)
             kind = rng.choice("TF")
             qs.append((kind, a, at))
+            written[a.hash()] = wt
         answers = []
         hits = 0
         byhash = {}
@@ -161,7 +168,7 @@ def run(ctx):
             answers.append(ans)
             if ans:
                 stats["true_answers"] += 1
-                at_true, at_false = valid_status(at, rng)
+                at_true, at_false = valid_status(written[a.hash()], rng)
                 if (kind == "T" and not at_true) or (kind == "F" and not at_false):
                     ctx.violation("C10/%s/claimed-but-not-%s" % ("is_true" if kind == "T" else "is_false", "valid" if kind == "T" else "unsat"),
                                   "%s(%s) returned True but the expression is not %s" % ("is_true" if kind == "T" else "is_false", E.sexpr(at),
